@@ -1,5 +1,6 @@
 SPECIFICATION Spec
 CONSTANTS
+  World = "w1"
   MaxPages = 3
   MaxBuf = 2
   GenDepth = 0
